@@ -428,7 +428,7 @@ theorem session_current (env : Env) (cfg : Cfg) (tt : UInt8) (htt : tt ≠ 0)
 
 def demoCfg : Cfg :=
   { regs := [.route .bind 0, .route (.extended [49, 46, 50]) 1, .unbind 2],
-    script := fun k =>
+    script := fun k _ =>
       if k = 0 then [⟨.bind, [.code 0], []⟩]
       else if k = 1 then [⟨.extended, [.code 0], [.code 2]⟩, ⟨.general, [.appCode 25], []⟩]
       else [] }
